@@ -367,6 +367,11 @@ func (p *Proxy) handleCONNECT(r responder.Responder, proxyReq *http.Request) err
 				break
 			}
 		}
+
+		// A request body the exchange did not consume (for example a GET answered from the store) is still
+		// on the connection; it must not be read as the beginning of the next request.
+		io.Copy(io.Discard, req.Body)
+		req.Body.Close()
 	}
 
 	slog.Debug("Exiting CONNECT tunnel", "host", proxyReq.Host)
